@@ -244,7 +244,7 @@ static inline int drive_main(const DriveOpts& o) {
         long nsched = o.scheds;
         for (long si = 0; si < nsched && !found; si++) {
             std::string sched;
-            if (si == 0) sched = gen_sched(ss, pf, false, true);
+            if (si == 0) { sched = gen_sched(ss, pf, false, true); if (o.tso) { size_t m = sched.find("mem=sc"); if (m != std::string::npos) sched.replace(m, 6, "mem=tso w=4 fp=16"); } }   // TSO profile: sb-load events get counted
             else if (!o.enum_cls.empty() && si >= 1) {
                 // enumeration of one directed stall over every event of a class (thorough tier)
                 int c = 0; for (int k = 0; k < 7; k++) if (o.enum_cls == EVN[k]) c = k;
